@@ -62,7 +62,8 @@ GetLayer(c, d, s, depth, inner) ==
             protocol |-> IF Len(c.subs) > 0 \/ HasHdr(d, "Sec-Websocket-Protocol") THEN 1 ELSE 0],
    upg |-> << "websocket" >>, con |-> << "upgrade" >>, ver |-> << "13" >>, keylen |-> 16, keyid |-> CanonKey(s),
    protos |-> c.subs, exts |-> IF c.comp THEN << "permessage-deflate" >> ELSE << >>,
-   seen |-> [i \in DOMAIN d.hdrs |-> TRUE], jar |-> c.jar]
+   seen |-> [i \in DOMAIN d.hdrs |-> TRUE],
+   pos |-> [i \in DOMAIN d.hdrs |-> Cardinality({j \in 1..i : d.hdrs[j].k = d.hdrs[i].k})], jar |-> c.jar]
 
 StepLayer(c, d, s, stp, depth, inner, done) ==
   CASE stp.s = "tls" ->
@@ -293,5 +294,5 @@ PlainURL == URL("ws", "none", "name", "example.test", "example.test", "", "/ws",
 Dial(u, hdrs, reply, creply, cert, fault, hookerr) ==
   u @@ [hdrs |-> hdrs, reply |-> reply, creply |-> creply, cert |-> cert, fault |-> fault, hookerr |-> hookerr]
 BaseCfg == [proxy |-> "none", phost |-> "proxy.example.test", pport |-> "3128", puser |-> FALSE, ppass |-> FALSE,
-            nd |-> FALSE, ndc |-> TRUE, ndtc |-> TRUE, subs |-> << >>, comp |-> FALSE, tmo |-> "none", jar |-> FALSE, rbuf |-> 0]
+            nd |-> FALSE, ndc |-> TRUE, ndtc |-> TRUE, subs |-> << >>, comp |-> FALSE, tmo |-> "none", jar |-> FALSE, rbuf |-> 0, trace |-> FALSE]
 =============================================================================
